@@ -3,15 +3,16 @@ import SkyllhModel.Model.Rng
 open Proto Rng
 
 /-  requests (floats as IEEE bit patterns, ints in decimal, lists comma separated, `-` = empty):
-      choice <right 0|1> <ps> <us>
-          -> coded:<idxs|ERR> spec:<idxs|ERR> cdf:<floats|ERR>          (items = 0..n-1)
+      choice <right 0|1> <items> <ps> <us>
+          -> coded:<items|ERR> spec:<items|ERR> cdf:<floats|ERR>        (items = integer codes of the item array)
       seed <start> <cur> <used>
           -> new:<seed> old:<seed>      (old = pinned code on sorted(unique(used)))
       hist <start> <file> <curs> <rows>
           -> seeds the successive extensions run with
-      trials <n> <ncpu> <seed> <pos> <mseed:mpos|-> <maxEv> <nSig> <thr> <maxRep> <npar> <lo> <hi> <tables>
+      trials <n> <ncpu> <seed> <pos> <mseed:mpos|-|same> <maxEv> <nSig> <thr> <maxRep> <npar> <lo> <hi> <tables>
           tables = seed=w,w,…;seed=w,…   (32-bit words of numpy's MT19937 streams, supplied by the harness)
-          -> rows:<seed;nEv;data;reps;fit|…> ws:<worker seeds> rss:<seed>:<pos> m:<seed>:<pos|->
+          (`same` = the data service itself is passed as minimizer_rss: reference 0 twice)
+          -> rows:<seed;nEv;data;reps;fit|…> ws:<worker seeds> rss:<seed>:<pos> m:<seed>:<pos|->   | ERR:value | ERR:index
 -/
 
 def fOptIdx (r : Option (List Nat)) : String :=
@@ -78,11 +79,11 @@ def fRow (o : TrialOut (List Float) (Nat × List Float)) : String :=
 
 def answer (line : String) : String :=
   match tokens line with
-  | ["choice", r, ps, us] =>
+  | ["choice", r, its, ps, us] =>
       let right := pB r
       let p := pList pF ps
       let u := pList pF us
-      let items := List.range p.length
+      let items := pList pN its
       let coded := chooseCoded right items p u (argsort u)
       let spec := chooseSpec right items p u
       let c := match cdf p with
@@ -97,12 +98,21 @@ def answer (line : String) : String :=
   | ["trials", n, ncpu, seed, pos, m, maxEv, nSig, thr, maxRep, npar, lo, hi, tabs] =>
       let cfg := synCfg ⟨pN maxEv, pN nSig, pF thr, pN maxRep, pN npar, pF lo, pF hi⟩
       let gen := genOf (parseTables tabs)
-      let r := parTrials gen id cfg (pN n) (pN ncpu) ⟨pN seed, pN pos⟩ (pStream m)
-      let ms := match r.mrss with
-        | some s => fStream s
-        | none => "-"
-      let rows := if r.outs.isEmpty then "-" else String.intercalate "|" (r.outs.map fRow)
-      s!"rows:{rows} ws:{fListD toString r.workerSeeds} rss:{fStream r.rss} m:{ms}"
+      -- store: reference 0 = the data service, reference 1 = an explicit minimiser service
+      let (w, ms) : World × Option Nat :=
+        if m == "same" then ((fun _ => ⟨pN seed, pN pos⟩), some 0)
+        else match pStream m with
+          | some st => ((fun r => if r == 1 then st else ⟨pN seed, pN pos⟩), some 1)
+          | none => ((fun _ => ⟨pN seed, pN pos⟩), none)
+      match doTrials gen id cfg (pN n) (pN ncpu) w 0 ms with
+      | .error .valueError => "ERR:value"
+      | .error .indexError => "ERR:index"
+      | .ok r =>
+        let mstr := match ms with
+          | some 1 => fStream (r.world 1)
+          | _ => "-"
+        let rows := if r.outs.isEmpty then "-" else String.intercalate "|" (r.outs.map fRow)
+        s!"rows:{rows} ws:{fListD toString r.workerSeeds} rss:{fStream (r.world 0)} m:{mstr}"
   | _ => "bad-op"
 
 def main : IO Unit := do loop (← IO.getStdin) answer
